@@ -92,7 +92,8 @@ def probe_inst(unw2, unw3, tds=(2, 3)):
     return out
 
 
-# height-3 allocation-failure instances that ride in the quick tier: insertion below a non-root 4-node (5-node tree whose
+# height-3 allocation-failure instances (thorough tier since the window induction step tree_win_step covers allocation failure
+# below 4-nodes at any depth in the quick tier; they needed > 10 min each and pushed the C02 quick check over 15 min): insertion below a non-root 4-node (5-node tree whose
 # right child is a 4-node); the other height-3 trees exhaust memory with allocation failure enabled and are not registered
 PUT_FAIL_QUICK3 = {(103, 96, 4), (103, 96, 6), (103, 96, 8), (103, 96, 10)}
 
@@ -114,7 +115,7 @@ GROUPS = [
        flags=['--memory-leak-check', '--no-malloc-may-fail'], defines=['-DNOFAIL']),
     # the same with every allocation free to fail (C15), on the trees of height <= 2
     tg('put_fail', 'h_put', ['qtreetbl_putobj', 'put_obj', 'new_obj'], ['C15', 'C02', 'C11', 'C14'],
-       probe_inst(5, 9, tds=(2,)) + [dict(d, tier='quick', weight=4, timeout=2400)
+       probe_inst(5, 9, tds=(2,)) + [dict(d, tier='thorough', weight=4, timeout=2400)
                                     for d in probe_inst(5, 9, tds=(3,)) if (d['SHAPE'], d['COLORS'], d['PROBE']) in PUT_FAIL_QUICK3]),
     tg('remove', 'h_remove', ['qtreetbl_removeobj', 'remove_obj', 'remove_min', 'move_red_left', 'move_red_right', 'fix', 'find_min'], P_ALL,
        probe_inst(5, 9)),
